@@ -176,6 +176,8 @@ def _conform_filename(
             emit_func(
                 replacement_node_ir,
                 emit_default_doc=False,  # emit_func.__name__ == "class_"
+                # name (and function type) of the requested target, as for a file that merely lacks it
+                **_default_options(node=None, search=search, type_wanted=type_wanted)()
             ),
             filename=filename,
             mode="wt",
